@@ -102,6 +102,7 @@ func (s *PFCPSession) MarkSessionQer(qers []qer) {
 		sessionIdx int
 		sessionMbr uint64
 		sessQerID  uint32
+		found      bool
 	)
 
 	if len(sessQerIDList) > 3 {
@@ -119,8 +120,14 @@ func (s *PFCPSession) MarkSessionQer(qers []qer) {
 				sessionIdx = idx
 				sessQerID = qer.qerID
 				sessionMbr = qer.ulMbr
+				found = true
 			}
 		}
+	}
+
+	if !found {
+		logger.PfcpLog.Infoln("no QER qualifies as session QER")
+		return
 	}
 
 	logger.PfcpLog.Infoln("session QER found. QER ID:", sessQerID)
